@@ -20,7 +20,7 @@ type histRef struct {
 }
 
 func feedOf(j *SynJob, h HistItem) *DFeed {
-	return &DFeed{Toks: h.Toks, Src: h.Src, UseSrc: h.UseSrc, Fail: h.Fail}
+	return &DFeed{Toks: h.Toks, Src: h.Src, UseSrc: h.UseSrc, Fail: h.Fail, Render: h.Render}
 }
 
 func sameP(a, b *DPResult) bool {
@@ -63,6 +63,7 @@ func runC16(c *Ctx) error {
 				if inRng.Intn(5) == 0 {
 					it.Fail = inRng.Intn(4)
 				}
+				it.Render = inRng.Intn(2) == 0
 				if inRng.Intn(4) == 0 {
 					it.UseSrc = true
 					it.Src = srcOf(it.Toks, inRng)
